@@ -395,7 +395,6 @@ def ctor_imaging(mask, seed, covariance):
     dm = ds.apply_mask(mask=mk)
     m0 = dfp(dm)
     dm.grids.uniform, dm.grids.blurring, dm.convolver, dm.w_tilde, dm.signal_to_noise_map
-    dm.apply_noise_scaling(mask=mk) if False else None
     if dfp(dm) != m0 or dfp(ds) != p0:
         return "reading grids / convolver / w_tilde of the masked dataset modified a dataset"
     return changed("reads on the masked dataset")
